@@ -1,6 +1,6 @@
 #!/bin/bash
 # usage: triage.sh ID [checks]   -- run a quick sample and print each distinct failure compactly
-cd /verif
+cd "$(dirname "$(readlink -f "$0")")"
 rm -rf replays/$1
 ./check $1 --checks ${2:-2000} --no-evidence > /tmp/triage-$1.log 2>&1
 echo "exit=$?"
